@@ -114,14 +114,17 @@ class EvalStep(Harness):
         # the reply is handed back unchanged
         r = deref_all(outcome[1])
         exp = deref_all(ctx['res'])
-        obs.append(('eval returns exactly what the evaluator produced', r.variant == exp.variant and
-                    deref_all(r.fields[0]).vname == deref_all(exp.fields[0]).vname))
+        if self.entry == 'helpers::eval':
+            obs.append(('eval returns exactly what the evaluator produced', r.variant == exp.variant and
+                        deref_all(r.fields[0]).vname == deref_all(exp.fields[0]).vname))
+        else:
+            obs.append(('one_line succeeds exactly when the evaluator did', r.variant == exp.variant))
         return obs
 
     def native(self, inputs, label):
         # histories through the public API: flag on/off, a numeric query, then `ans`
         flag = bool(inputs.get('save_previous_result', True))
-        return [{'mode': 'query', 'save_previous_result': flag, 'ans': number_json(Fraction(7), {'m': 1}), 'pre': ['3 s', 'foo bar baz', '1 m -> cm'], 'text': 'ans'},
+        return [{'mode': 'query', 'save_previous_result': flag, 'ans': number_json(Fraction(7), {'m': 1}), 'pre': ['3 kg', 'foo bar baz', '1 m -> cm'], 'text': 'ans'},
                 {'mode': 'query', 'use_humanize': True, 'pre': ['5 m -> UTC', 'foo -> UTC', 'now -> +25:00', '1 m -> "US/Pacific"', 'now -> UTC'], 'text': '1 m'},
                 {'mode': 'query', 'use_humanize': False, 'pre': ['5 m -> UTC', 'now -> UTC', '#jan 1, 2100#'], 'text': '1 m'}]
 
@@ -129,17 +132,33 @@ class EvalStep(Harness):
         flag = bool(inputs.get('save_previous_result', True))
         q = obs[0]
         got = obs_number_json(q)
-        # after `3 s` (numeric), an error and a conversion: ans must be 3 s when the flag is on, 7 m otherwise
-        want = (Fraction(3), {'s': 1}) if flag else (Fraction(7), {'m': 1})
+        # after `3 kg` (numeric), an error and a conversion: ans must be 3 kg when the flag is on, 7 m otherwise
+        want = (Fraction(3), {'kg': 1}) if flag else (Fraction(7), {'m': 1})
         bad = []
         if got != want:
-            bad.append('history [3 s; error; conversion; ans] with flag=%s gave %s, expected %s' % (flag, got, want))
+            bad.append('history [3 kg; error; conversion; ans] with flag=%s gave %s, expected %s' % (flag, got, want))
         if q.get('ctx_save_previous_result') is not None and q.get('ctx_save_previous_result') != flag:
             bad.append('save_previous_result changed from %s to %s' % (flag, q.get('ctx_save_previous_result')))
         for o, want_h in zip(obs[1:], (True, False)):
             if o.get('ctx_use_humanize') is not None and o.get('ctx_use_humanize') != want_h:
                 bad.append('use_humanize changed from %s to %s over a history of timezone conversions and errors' % (want_h, o.get('ctx_use_humanize')))
         return bool(bad), '; '.join(bad) or 'history leaves flags alone and ans as specified'
+
+
+class OneLineStep(EvalStep):
+    """the text front end of eval: the same step, through rink_core::one_line"""
+    name = 'helpers.one_line.one_step'
+    entry = 'helpers::one_line'
+    describe = ('rink_core::one_line (the plain-text wrapper) on an arbitrary context state with parser and evaluator replaced by an arbitrary result: '
+                'the context is left exactly as rink_core::eval would leave it')
+    stubs = EvalStep.stubs + ((r'^<(QueryReply|QueryError) as ToString>::to_string$|^<&?(QueryReply|QueryError) as ToString>::to_string$',
+                               lambda ex, nc, a: 'text', 'ToString of the reply / error -> marker text'),)
+
+    def native(self, inputs, label):
+        reqs = EvalStep.native(self, inputs, label)
+        for r in reqs:
+            r['one_line'] = True
+        return reqs
 
 
 class StaticPurity(Harness):
@@ -295,4 +314,4 @@ class ReplyKinds(Harness):
 
 
 def harnesses(tier):   # noqa: F811
-    return [EvalStep(), StaticPurity(), ReplyKinds()]
+    return [EvalStep(), OneLineStep(), StaticPurity(), ReplyKinds()]
